@@ -108,9 +108,17 @@ def make_cases(tbl, seed, k_random, k_corrupt):
                 ('long-payload', b58ref.b58check(bp, p + b'\x00')),
                 ('unknown-binary-prefix', b58ref.b58check(unknown, p)),
                 ('neighbour-binary-prefix', b58ref.b58check(bp[:-1] + bytes([(bp[-1] + (1 if i % 2 else 255)) % 256]), p)),
+                # the hexadecimal spelling of the valid text is a text of other characters and another length: not an encoding
+                ('hex-of-valid', s.encode().hex()),
+                ('0x-hex-of-valid', '0x' + s.encode().hex().upper()),
+                # bytes that are no text at all (invalid UTF-8) in front of, inside and behind a valid text (code points < 256 stand for the bytes)
+                ('invalid-utf8-inside', s[:pos] + '\xff' + s[pos:]),
+                ('invalid-utf8-in-front', '\xfe' + s),
+                ('invalid-utf8-behind', s + '\x80'),
+                ('truncated-utf8-inside', s[:pos] + '\xc3' + s[pos:]),
             ]
             for name, txt in corr:
-                cases.append((('dec', tuple(txt.encode())), {'kind': 'dec', 'row': i, 'cls': name, 'text': txt}))
+                cases.append((('dec', tuple(map(ord, txt))), {'kind': 'dec', 'row': i, 'cls': name, 'text': txt}))
     return cases
 
 
@@ -125,15 +133,15 @@ def impl_encode(payload, hp):
 def impl_decode(text):
     from pytezos.crypto.encoding import base58_decode
     try:
-        return ('accept', bytes(base58_decode(text.encode())))
+        return ('accept', bytes(base58_decode(text.encode('latin-1'))))
     except Exception as e:   # noqa
         return ('reject', type(e).__name__)
 
 
-def impl_validator(name, text):
+def impl_validator(name, text, as_bytes=False):
     from pytezos.crypto import encoding
     try:
-        return bool(getattr(encoding, name)(text))
+        return bool(getattr(encoding, name)(text.encode('latin-1') if as_bytes else text))
     except Exception as e:   # noqa
         return 'raises-' + type(e).__name__
 
@@ -148,6 +156,13 @@ def check_validators(ctx, text, accepted_hp, case):
         want = accepted_hp in kinds
         got = impl_validator(name, text)
         ctx.count(('val', name, text), nontrivial=accepted_hp is not None)
+        # the validators take text or the bytes of that text (Union[str, bytes]); for bytes that are not text, failing is rejecting
+        gotb = impl_validator(name, text, as_bytes=True)
+        if isinstance(gotb, str) and want is False and any(ord(c) > 127 for c in text):
+            gotb = False
+        if got is want and gotb is not want:
+            got = gotb
+            name = name + ':bytes-input'
         if got is want:
             continue
         ok = False
@@ -227,7 +242,7 @@ def run(ctx):
     classes = ['zero', 'ones'] if ctx.quick else ['zero', 'ones', 'zero-ff', 'ones-00', 'low', 'high', 'mid']
     ctx.rule = ('kind table read from the running code (%d rows); Leg A: TLC encodes, per row, the payload/checksum classes %s and every concrete case three digits per step and '
                 'checks the end points, the shape of every encoding, invertibility and that the (length, human prefix) decoder accepts exactly the encodings; '
-                'Leg B: per row payloads {zeros, ones, %d seeded random, two containing the binary prefix of their own kind} are encoded and 14 corruption classes of %d valid text(s) per row are decoded by the model, the checksum '
+                'Leg B: per row payloads {zeros, ones, %d seeded random, two containing the binary prefix of their own kind} are encoded and 20 corruption classes of %d valid text(s) per row are decoded by the model, the checksum '
                 'is interpreted with hashlib, and base58_encode / base58_decode / is_* are compared with the model; non-trivial = every case (distinct row x payload / text)'
                 % (len(tbl), classes, k_random, k_corrupt))
     ctx.assumptions = ['Cksum is uninterpreted in the spec and interpreted by hashlib sha256(sha256(.))[:4] in the harness',
@@ -342,6 +357,6 @@ META = {
              'verdicts (checksum interpreted by hashlib) are compared with base58_encode, base58_decode and the is_* validators.'),
     'design_ref': 'DESIGN.md section 5 C09',
     'note': ('Trusted: table extraction, hashlib interpretation of the checksum, corruption generator. Per row: payloads zeros / ones / seeded random (1 quick, 12 thorough), '
-             '14 corruption classes of 1 (3) valid texts per row; the digit-by-digit definitions are compared on the lower end points (quick) / on every input (thorough). Binary prefixes are taken from the code and only checked against the documented human prefix.'),
+             '20 corruption classes of 1 (3) valid texts per row; the digit-by-digit definitions are compared on the lower end points (quick) / on every input (thorough). Binary prefixes are taken from the code and only checked against the documented human prefix.'),
     'technique': 'TLA+ spec + TLC exhaustive model checking over the table; model-evaluated cases replayed into base58_encode / base58_decode / is_*',
 }
